@@ -28,7 +28,7 @@ EmptySt     == [k |-> "empty",    i |-> 0]
 
 N == Len(L)
 
-IsSorted(s)  == \A i \in 1..(Len(s) - 1) : s[i] < s[i + 1]     \* strict: sorted and duplicate free
+IsSortedStrict(s)  == \A i \in 1..(Len(s) - 1) : s[i] < s[i + 1]     \* strict: sorted and duplicate free
 RangeOf(s)   == {s[i] : i \in 1..Len(s)}
 Intersects(ls) == \E i, j \in 1..Len(ls) : i # j /\ RangeOf(ls[i]) \cap RangeOf(ls[j]) # {}
 
@@ -113,7 +113,7 @@ MNext == DoInit \/ Test \/ Pick \/ Verify \/ Advance
 
 -----------------------------------------------------------------------------
 (* Properties *)
-Precondition == \A i \in 1..N : IsSorted(L[i])
+Precondition == \A i \in 1..N : IsSortedStrict(L[i])
 
 MergeCorrect ==
     (pc = "done" /\ Precondition) =>
